@@ -58,6 +58,7 @@ package dns
 // Map decodes and re-encodes UTF-8 (invalid octets become U+FFFD), about which nothing is claimed.
 //@ extern strings.Map
 //@   ensures ascii: ascii7(s) ==> len(ret0) == len(s) && (forall k in 0..len(s) :: ret0[k] == lower(s[k]))
+//@   ensures nonempty: len(s) > 0 ==> len(ret0) > 0
 //@   pure
 
 // time: an instant is identified by (wall, ext); UTC() changes only the location; Unix() is a function of
